@@ -6,7 +6,9 @@ custom exception class and extra arguments, and the three authorize variants -
 each with debug logging off and on; outcomes must be related exactly as the
 statement says.  Deep snapshots show the inputs are not altered.  icontract
 post-condition on the real Enforcer.enforce: do_raise never yields a falsy
-return."""
+return.  A share of the triples additionally goes through every calling
+convention (do_raise omitted / by keyword / positional / non-bool spellings,
+exception class and extra arguments by keyword or positionally)."""
 import json
 import copy
 
@@ -28,16 +30,26 @@ RULE = ('cases = (rule set from the expression generator + fixed always-allow/de
         'deprecations, rule set from a policy file or in memory with / without the old name defined or overridden; authorize in the three modes on names that are '
         'NOT registered but related to registered ones (deprecated old name of a renamed policy, other letter case, surrounding white space, prefix / suffix, '
         'look-alike spelling, defined in the rule set only, the default rule, registered on another enforcer) must raise PolicyNotRegistered with no check '
-        'evaluated (all rules involved start with the counting check), before and after the first load; the registered names: authorize == enforce in every mode.')
+        'evaluated (all rules involved start with the counting check), before and after the first load; the registered names: authorize == enforce in every mode. '
+        'Stratum `conventions`: every 8th triple is also sent through 22 calling conventions of enforce and of authorize - do_raise omitted altogether '
+        '(alone, with exc=None, with the exception class and the extra arguments given by keyword), False / True by keyword and positionally with the class and '
+        'extra arguments given positionally or by keyword in either order, and the non-bool spellings None, 0, "" (off) and 1, "yes" (on): every off spelling '
+        'returns (never raises) a value of the truth value of the plain call; every on spelling is related to the plain call as the statement says '
+        '(InvalidScope / the class built from exactly the arguments given / PolicyNotAuthorized naming the policy / truthy return); authorize: the same '
+        'outcome as enforce per convention for registered names, PolicyNotRegistered with nothing evaluated otherwise.')
 ASSUMPTIONS = ['the documented mirroring of system_scope into system is the only permitted change to the credentials',
-               'the message of PolicyNotAuthorized "names the policy" = contains str(rule) for rules given by name']
+               'the message of PolicyNotAuthorized "names the policy" = contains str(rule) for rules given by name',
+               'do_raise "off" includes leaving the argument out (its documented default) and "on"/"off" are read by truth value (None, 0, "" = off; '
+               '1, "yes" = on), as the unchanged library does; exc=None is "no class given"']
 LEVEL_TEXT = ('Seeded sampling of triples, each enforced in 12 mode combinations by the real code and related pairwise; the '
               'suite never relates two modes on one input.')
 LEVEL_NOTE = 'trusted: the mode-relation oracle transcribed from the statement; copy.deepcopy for fresh inputs per call'
 PLAN = {'quick': dict(shards=4, wall=120), 'thorough': dict(shards=16, wall=400)}
 MIN = {'overlapping_evaluations': 200, 'evaluations': 1000, 'falsy_plain': 300, 'truthy_plain': 300, 'custom_exceptions_seen': 200,
        'invalid_scope_seen': 20, 'not_registered_seen': 100, 'debug_on_triples': 300, 'empty_ruleset_triples': 50,
-       'related_name_probes': 800, 'related_name_probes.deprecated-old-name': 80, 'related_registered_compared': 300}
+       'related_name_probes': 800, 'related_name_probes.deprecated-old-name': 80, 'related_registered_compared': 300,
+       'convention_triples': 800, 'convention_triples_denied': 400, 'convention_triples_allowed': 200,
+       'convention_triples_registered_name': 150, 'convention_calls': 50000}
 ANCHORS = ['oslo_policy.policy:Enforcer.enforce', 'oslo_policy.policy:Enforcer.authorize',
            'oslo_policy.policy:Enforcer._enforce_scope']
 REQUIRED_ANCHORS = ['oslo_policy.policy:Enforcer.enforce', 'oslo_policy.policy:Enforcer.authorize']
@@ -161,6 +173,44 @@ def token_scope(creds):
 
 
 ODD_VALUES = [0, '', None, [], 'yes', 1, False, True, 0.0, {}, 'False', [0]]
+
+
+# ---- stratum `conventions`: the ways a caller can spell "do_raise off" / "do_raise on" ------------------------------------
+# (label, 'off' | 'on', spelling class, exception class given?, extra positional arguments given?, the call)
+# `a` / `k` = the case's extra positional / keyword arguments.  Extra positional arguments can only be given together with
+# a positional do_raise and exc; by keyword everything can be given with do_raise left out.
+CONVENTIONS = [
+    ('omitted, exc=Cls, **kw', 'off', 'omitted', True, False, lambda fn, r, t, c, a, k: fn(r, t, c, exc=CustomDenied, **k)),
+    ('omitted, **kw', 'off', 'omitted', False, False, lambda fn, r, t, c, a, k: fn(r, t, c, **k)),
+    ('omitted, exc=None', 'off', 'omitted', False, False, lambda fn, r, t, c, a, k: fn(r, t, c, exc=None)),
+    ('do_raise=False', 'off', 'False', False, False, lambda fn, r, t, c, a, k: fn(r, t, c, do_raise=False)),
+    ('do_raise=False, exc=Cls, **kw', 'off', 'False', True, False,
+     lambda fn, r, t, c, a, k: fn(r, t, c, do_raise=False, exc=CustomDenied, **k)),
+    ('exc=Cls, **kw, do_raise=False', 'off', 'False', True, False,
+     lambda fn, r, t, c, a, k: fn(r, t, c, exc=CustomDenied, do_raise=False, **k)),
+    ('False', 'off', 'False', False, False, lambda fn, r, t, c, a, k: fn(r, t, c, False)),
+    ('False, Cls, *a, **kw', 'off', 'False', True, True, lambda fn, r, t, c, a, k: fn(r, t, c, False, CustomDenied, *a, **k)),
+    ('False, exc=Cls, **kw', 'off', 'False', True, False, lambda fn, r, t, c, a, k: fn(r, t, c, False, exc=CustomDenied, **k)),
+    ('None', 'off', 'falsy', False, False, lambda fn, r, t, c, a, k: fn(r, t, c, None)),
+    ('do_raise=None, exc=Cls, **kw', 'off', 'falsy', True, False,
+     lambda fn, r, t, c, a, k: fn(r, t, c, do_raise=None, exc=CustomDenied, **k)),
+    ('0, Cls, *a, **kw', 'off', 'falsy', True, True, lambda fn, r, t, c, a, k: fn(r, t, c, 0, CustomDenied, *a, **k)),
+    ("do_raise='', exc=Cls, **kw", 'off', 'falsy', True, False,
+     lambda fn, r, t, c, a, k: fn(r, t, c, do_raise='', exc=CustomDenied, **k)),
+    ('do_raise=True, exc=Cls, **kw', 'on', 'True', True, False,
+     lambda fn, r, t, c, a, k: fn(r, t, c, do_raise=True, exc=CustomDenied, **k)),
+    ('True, exc=Cls, **kw', 'on', 'True', True, False, lambda fn, r, t, c, a, k: fn(r, t, c, True, exc=CustomDenied, **k)),
+    ('exc=Cls, **kw, do_raise=True', 'on', 'True', True, False,
+     lambda fn, r, t, c, a, k: fn(r, t, c, exc=CustomDenied, do_raise=True, **k)),
+    ('do_raise=True, exc=None', 'on', 'True', False, False, lambda fn, r, t, c, a, k: fn(r, t, c, do_raise=True, exc=None)),
+    ('True, None', 'on', 'True', False, False, lambda fn, r, t, c, a, k: fn(r, t, c, True, None)),
+    ('do_raise=True, **kw', 'on', 'True', False, False, lambda fn, r, t, c, a, k: fn(r, t, c, do_raise=True, **k)),
+    ('1, Cls, *a, **kw', 'on', 'truthy', True, True, lambda fn, r, t, c, a, k: fn(r, t, c, 1, CustomDenied, *a, **k)),
+    ("do_raise='yes'", 'on', 'truthy', False, False, lambda fn, r, t, c, a, k: fn(r, t, c, do_raise='yes')),
+    ("do_raise='yes', exc=Cls, **kw", 'on', 'truthy', True, False,
+     lambda fn, r, t, c, a, k: fn(r, t, c, do_raise='yes', exc=CustomDenied, **k)),
+]
+CONVENTION_EVERY = 8          # every 8th triple of the random stratum is also run through all calling conventions
 
 
 def gen_case(rnd):
@@ -303,6 +353,81 @@ def check_case(ctx, worlds, case):
                 return 'do_raise-returns-falsy', detail
         return None, detail
 
+    def run_conventions(fn):
+        out = []
+        for label, kind, spelling, with_class, positional, call in CONVENTIONS:
+            c = fresh(creds0, objs)
+            t = fresh(target0, objs)
+            out.append(outcome(lambda: call(fn, rule, t, c, args, kwargs)))
+            ctx.count('convention_calls')
+        return out
+
+    def judge_convention(conv, o, plain):
+        """What the statement says about one spelling of do_raise, given the outcome of the plain call (which returned)."""
+        label, kind, spelling, with_class, positional, call = conv
+        if kind == 'off':
+            # do_raise off: the decision is returned, whatever else the caller passes along
+            if o[0] == 'exc':
+                return 'do_raise-%s-raises' % spelling
+            if bool(o[1]) != bool(plain[1]):
+                return 'do_raise-%s-decision-differs' % spelling
+            if describe(o) != describe(plain):
+                ctx.unconstrained('off-spellings-return-different-values-of-one-truth-value')
+            return None
+        if mismatch:
+            if not (o[0] == 'exc' and isinstance(o[1], policy.InvalidScope)):
+                return 'scope-mismatch-not-InvalidScope'
+            return None
+        if not plain[1]:
+            if with_class:
+                if not (o[0] == 'exc' and type(o[1]) is CustomDenied):
+                    return 'deny-without-custom-exception'
+                if o[1].a != (args if positional else ()) or o[1].k != kwargs:
+                    return 'custom-exception-arguments-lost'
+            else:
+                if not (o[0] == 'exc' and type(o[1]) is policy.PolicyNotAuthorized):
+                    return 'deny-without-PolicyNotAuthorized'
+                if name is not None and str(name) not in str(o[1]):
+                    return 'PolicyNotAuthorized-does-not-name-policy'
+        else:
+            if o[0] == 'exc':
+                return 'allowed-request-raises'
+            if not o[1]:
+                return 'do_raise-returns-falsy'
+        return None
+
+    def check_conventions(eplain, debug):
+        """The same triple through every calling convention of enforce and of authorize."""
+        suffix = '-under-debug-logging' if debug else ''
+        eres = run_conventions(w.enf.enforce)
+        for conv, o in zip(CONVENTIONS, eres):
+            key = judge_convention(conv, o, eplain)
+            if key:
+                ctx.violation('convention-' + key + suffix, case,
+                              {'api': 'enforce', 'convention': conv[0], 'plain': describe(eplain), 'observed': describe(o),
+                               'debug': debug})
+        before_calls = w.Odd.calls + w.Counting.calls
+        ares = run_conventions(w.enf.authorize)
+        if name is not None and name in w.registered:
+            for conv, o, eo in zip(CONVENTIONS, ares, eres):
+                key = judge_convention(conv, o, eplain)
+                if key:
+                    ctx.violation('authorize-convention-' + key + suffix, case,
+                                  {'api': 'authorize', 'convention': conv[0], 'plain': describe(eplain),
+                                   'observed': describe(o), 'debug': debug})
+                elif describe(o) != describe(eo):
+                    ctx.violation('authorize-convention-differs-from-enforce' + suffix, case,
+                                  {'convention': conv[0], 'enforce': describe(eo), 'authorize': describe(o), 'debug': debug})
+        else:
+            bad = [conv[0] for conv, o in zip(CONVENTIONS, ares)
+                   if not (o[0] == 'exc' and isinstance(o[1], policy.PolicyNotRegistered))]
+            if bad:
+                ctx.violation('authorize-unregistered-not-refused', case,
+                              {'conventions': bad, 'observed': {conv[0]: describe(o) for conv, o in zip(CONVENTIONS, ares)}})
+            elif w.Odd.calls + w.Counting.calls != before_calls:
+                ctx.violation('authorize-unregistered-evaluates', case,
+                              {'conventions': True, 'check_calls': w.Odd.calls + w.Counting.calls - before_calls})
+
     results = {}
     for debug in ((False, True) if case['debug'] else (False,)):
         cm = env.debug_logging() if debug else None
@@ -334,9 +459,19 @@ def check_case(ctx, worlds, case):
                                   {'modes': bad, 'observed': {k: describe(v) for k, v in ares.items()}})
                 elif w.Odd.calls + w.Counting.calls != before_calls:
                     ctx.violation('authorize-unregistered-evaluates', case, {'check_calls': w.Odd.calls + w.Counting.calls - before_calls})
+            if case.get('conventions') and res['plain'][0] == 'ret':
+                check_conventions(res['plain'], debug)
         finally:
             if cm:
                 cm.__exit__(None, None, None)
+    if case.get('conventions') and results[False]['plain'][0] == 'ret':
+        ctx.count('convention_triples')
+        if mismatch or not results[False]['plain'][1]:
+            ctx.count('convention_triples_denied')
+        else:
+            ctx.count('convention_triples_allowed')
+        if name is not None and name in w.registered:
+            ctx.count('convention_triples_registered_name')
     if case['debug']:
         ctx.count('debug_on_triples')
         a = {k: describe(v) for k, v in results[False].items()}
@@ -659,6 +794,8 @@ def run(ctx):
             if (i & 0x3f) == 0 and ctx.expired():
                 break
             case = gen_case(ctx.rnd)
+            if i % CONVENTION_EVERY == 3:
+                case['conventions'] = True      # (not drawn from the case's random stream: the other triples stay what they were)
             check_case(ctx, worlds, case)
             if i % 400 == 0:
                 ctx.sample(case)
